@@ -598,7 +598,7 @@ class Inliner:
                     refs += 1
             # references from inside the helper itself do not count
             inner = sum(1 for n in ast.walk(func) if (isinstance(n, ast.Name) and n.id == nm) or (isinstance(n, ast.Attribute) and n.attr == nm))
-            if refs - inner <= 0 and func in container:
+            if refs - inner <= 0 and func in container and not (cls is None and nm in getattr(self, "keep", ())):
                 container.remove(func)
                 if not container:
                     container.append(ast.Pass())
@@ -1007,11 +1007,105 @@ def unroll_literal_loops(func, ref_locals: Set[str]) -> bool:
     return changed
 
 
-def normalize_tree(tree, rel: str, temporaries: bool = True) -> bool:
+def _resolve_from(rel, st):
+    """repository-relative path candidates of the module a `from X import ...` statement of file `rel` names"""
+    base = rel.rsplit("/", 1)[0]
+    if st.level:
+        parts = base.split("/")
+        for _ in range(st.level - 1):
+            parts = parts[:-1]
+        path = "/".join(parts + (st.module.split(".") if st.module else []))
+    else:
+        path = (st.module or "").replace(".", "/")
+    return [path + ".py", path + "/__init__.py"]
+
+
+def import_new_helpers(tree, rel, root) -> bool:
+    """`from other_module import helper` where `helper` is a module-level function that the reference inventory of other_module does not know (a helper extracted into a
+    shared module): the helper's definition is copied into this module (and the import alias dropped), so that the inliner treats it like a local new helper.  Only helpers
+    whose free names are available in this module (or are the usual library aliases) are copied."""
+    import builtins
+    import os
+    changed = False
+    inv_all = inventory()
+    have = set()
+    for st in tree.body:
+        if isinstance(st, (ast.Import, ast.ImportFrom)):
+            have |= {(al.asname or al.name).split(".")[0] for al in st.names}
+        elif isinstance(st, (ast.FunctionDef, ast.ClassDef)):
+            have.add(st.name)
+        elif isinstance(st, ast.Assign):
+            have |= {t.id for t in st.targets if isinstance(t, ast.Name)}
+    for st in list(tree.body):
+        if not isinstance(st, ast.ImportFrom):
+            continue
+        target = next((c for c in _resolve_from(rel, st) if os.path.isfile(os.path.join(root, c))), None)
+        if target is None or target == rel:
+            continue
+        tinv = inv_all.get(target)
+        if tinv is None:
+            continue        # a new module: nothing to anchor on
+        new_names = [al for al in st.names if al.name != "*" and al.name not in tinv["functions"] and not any(q.split(".")[0] == al.name for q in tinv["functions"])]
+        if not new_names:
+            continue
+        try:
+            with open(os.path.join(root, target), "rb") as fh:
+                ttree = ast.parse(fh.read().decode("utf-8"))
+        except (OSError, SyntaxError):
+            continue
+        tdefs = {n.name: n for n in ttree.body if isinstance(n, ast.FunctionDef)}
+        for al in new_names:
+            fn = tdefs.get(al.name)
+            if fn is None:
+                continue
+            local = {a.arg for a in fn.args.args + fn.args.kwonlyargs} | {n.id for n in ast.walk(fn) if isinstance(n, ast.Name) and isinstance(n.ctx, ast.Store)}
+            free = {n.id for n in ast.walk(fn) if isinstance(n, ast.Name) and isinstance(n.ctx, ast.Load)} - local - set(dir(builtins))
+            if not free <= have | {"torch", "th", "np", "math"}:
+                continue
+            if al.asname and al.asname != al.name:
+                fn.name = al.asname
+            idx = tree.body.index(st)
+            tree.body.insert(idx + 1, fn)
+            st.names.remove(al)
+            changed = True
+        if not st.names:
+            tree.body.remove(st)
+    return changed
+
+
+def _referenced_elsewhere(names, rel, root):
+    """which of the module-level names of file `rel` occur in another source file of the tree (a helper that other modules import must stay defined)"""
+    import os
+    import re
+    out = set()
+    if not names:
+        return out
+    pat = re.compile(r"\b(" + "|".join(re.escape(n) for n in names) + r")\b")
+    for top in ("seqm", "scripts"):
+        for dp, _, fns in os.walk(os.path.join(root, top)):
+            for fn in fns:
+                if not fn.endswith(".py"):
+                    continue
+                p = os.path.join(dp, fn)
+                if os.path.relpath(p, root) == rel:
+                    continue
+                try:
+                    with open(p, encoding="utf-8", errors="replace") as fh:
+                        out |= set(pat.findall(fh.read()))
+                except OSError:
+                    pass
+    return out
+
+
+def normalize_tree(tree, rel: str, temporaries: bool = True, root: Optional[str] = None) -> bool:
     inv = inventory().get(rel)
     if inv is None:
         return False
-    changed = Inliner(tree, rel).run()
+    pre = import_new_helpers(tree, rel, root) if root else False
+    inl = Inliner(tree, rel)
+    if root and inl.new:
+        inl.keep = _referenced_elsewhere({f.name for q, (f, cls, _) in inl.new.items() if cls is None}, rel, root)
+    changed = inl.run() or pre
     if not temporaries:
         if changed:
             ast.fix_missing_locations(tree)
